@@ -256,6 +256,10 @@ func applyBaseline(prog *ssa.Program, all map[*ssa.Function]bool) []string {
 		return nil
 	}
 	baselineFns = map[string]bool{}
+	baselineStructNames = map[string]bool{}
+	for _, st := range bl.Structs {
+		baselineStructNames[st.Name] = true
+	}
 	baselineWrappers = map[string][]baseFn{}
 	for _, b := range bl.Funcs {
 		baselineFns[b.Name] = true
